@@ -6,7 +6,7 @@ from concurrent.futures import ThreadPoolExecutor
 from pathlib import Path
 V = Path(__file__).resolve().parent.parent
 # a seed may be caught by the check of another property that shares the mechanism
-EXTRA = {"C05-2": ["C06"], "C09-1": ["C01"], "C01-1": ["C09"]}
+EXTRA = {"C05-2": ["C06"], "C09-1": ["C01"], "C01-1": ["C09"], "C05-8": ["C06"]}
 
 def run(seed):
     prop = seed.split("-")[0]
